@@ -380,6 +380,64 @@ var c03Long = []string{
 	"list zip archive commit status log directory name count lines sort build",
 }
 
+// c03TargetedLong builds long queries from the texts of one database so that the term cap has to choose:
+// the first four words are the most common indexed words (lowest idf) and, within each query, sort
+// alphabetically after / before the eight rare words that follow. Whatever the cap keeps besides, the
+// statement requires every eligible entry containing one of the first four to be returned.
+func c03TargetedLong(cmds []Cmd) []string {
+	df := map[string]int{}
+	for _, cm := range cmds {
+		seen := map[string]bool{}
+		for _, t := range refTokens(strings.Join(append(append([]string{cm.Command, cm.Description}, cm.Keywords...), cm.Tags...), " ")) {
+			if !seen[t] {
+				seen[t] = true
+				df[t]++
+			}
+		}
+	}
+	var words []string
+	for w := range df {
+		// keep words the tokenizer gives back unchanged as a query term
+		if ts := refTokens(w); len(ts) == 1 && ts[0] == w {
+			words = append(words, w)
+		}
+	}
+	sort.Strings(words)
+	common := append([]string{}, words...)
+	sort.SliceStable(common, func(i, j int) bool { return df[common[i]] > df[common[j]] })
+	var rare []string
+	for _, w := range words {
+		if df[w] == 1 {
+			rare = append(rare, w)
+		}
+	}
+	if len(common) < 4 || len(rare) < 16 {
+		return nil
+	}
+	first := common[:4]
+	in := map[string]bool{}
+	for _, w := range first {
+		in[w] = true
+	}
+	pick := func(from []string) []string {
+		var out []string
+		for _, w := range from {
+			if !in[w] && len(out) < 8 {
+				out = append(out, w)
+			}
+		}
+		return out
+	}
+	early := pick(rare) // alphabetically smallest rare words
+	rev := append([]string{}, rare...)
+	sort.Sort(sort.Reverse(sort.StringSlice(rev)))
+	late := pick(rev) // alphabetically largest rare words
+	// the same with the first four in reverse order
+	f2 := []string{first[3], first[2], first[1], first[0]}
+	return []string{strings.Join(append(append([]string{}, first...), early...), " "), strings.Join(append(append([]string{}, first...), late...), " "),
+		strings.Join(append(append([]string{}, f2...), early...), " ")}
+}
+
 func c03Queries(static bool) []string {
 	qs := uQueries(uWords, 1)
 	content := []string{"compress", "files", "git", "tar", "qzx", "list", "folder", "install", "café", "COMPRESS"}
@@ -413,11 +471,17 @@ func c03OpAlphabet() []c03Op {
 func c03Run(c *lib.Ctx) {
 	vhost.Set("linux")
 	pool := uPool()
+	_ = pool
 	var idx int64
 	selfCheck := 0
 	// (a) static universe
-	subs := uSubsets(len(pool), 3)
+	subs := uSubsets(uPoolCore, 3)
 	subs = append(subs, []int{0, 1, 4, 5, 22, 23}, []int{20, 21, 24, 25, 2, 3, 7, 8, 9})
+	all31 := make([]int, uPoolCore)
+	for i := range all31 {
+		all31[i] = i
+	}
+	subs = append(subs, all31)
 	qsStatic := c03Queries(true)
 	for di, s := range subs {
 		if !c.Mine(int64(di)) {
@@ -433,7 +497,12 @@ func c03Run(c *lib.Ctx) {
 			return
 		}
 		ref := buildRef(want)
-		for _, q := range qsStatic {
+		qsDB := qsStatic
+		if len(s) >= 6 {
+			// long queries aimed at the term cap of this very database (see c03TargetedLong)
+			qsDB = append(append([]string{}, qsStatic...), c03TargetedLong(want)...)
+		}
+		for _, q := range qsDB {
 			toks := refTokens(q)
 			for _, all := range []bool{true, false} {
 				for b := 0; b < 3; b++ {
@@ -570,7 +639,7 @@ func init() {
 	_ = strings.Join
 	lib.Register(&lib.Check{
 		ID: "C03", Level: "model_checking",
-		Rule:      "(a) every subset of <=3 entries of the 31-entry pool (+2 larger sets) loaded by the real loader x {22 one-word, 90 two-word, 4 long (>10 terms), 3 special} queries x all-platforms on/off x {no boost, boost 2 on the query's last term, boost 2 on its first term}: SearchUniversal(UseNLP=false, Limit>=N) result set and scores against an independent scorer that scans the command texts (parameters read through the accessor: " + accMode + "); (b) every history of length <=3 (quick) / <=4 (thorough) over 28 operations {LoadDatabase x4, LoadDatabaseWithPersonal x12 (absent/empty/1/2-entry notebook), UpdateDatabase x4, direct growth x2, direct shrink, direct assignment of a list of another length, literal construction x2}: the same comparison after the last step for 53 queries x all-platforms on/off, plus NLP-on search compared bit-for-bit with a freshly loaded copy of the same commands. evaluations = searches compared; non-trivial = searches with a non-empty answer",
+		Rule:      "(a) every subset of <=3 entries of the 31-entry pool (+3 larger sets) loaded by the real loader x {22 one-word, 90 two-word, 4 long (>10 terms), 3 special} queries (+ for the 3 larger sets - 6, 9 and all 31 entries - three 12-word queries built from the database itself: its four most common words first, then eight words that occur once and sort before / after them, so that the term cap must drop something) x all-platforms on/off x {no boost, boost 2 on the query's last term, boost 2 on its first term}: SearchUniversal(UseNLP=false, Limit>=N) result set and scores against an independent scorer that scans the command texts (parameters read through the accessor: " + accMode + "); (b) every history of length <=3 (quick) / <=4 (thorough) over 28 operations {LoadDatabase x4, LoadDatabaseWithPersonal x12 (absent/empty/1/2-entry notebook), UpdateDatabase x4, direct growth x2, direct shrink, direct assignment of a list of another length, literal construction x2}: the same comparison after the last step for 53 queries x all-platforms on/off, plus NLP-on search compared bit-for-bit with a freshly loaded copy of the same commands. evaluations = searches compared; non-trivial = searches with a non-empty answer",
 		Assume:    []string{"host platform pinned to linux (vhost), map order pinned (vmap)", "tokenizer reference composed from the repository's exported NormalizeText and StopWords", "for >10 terms only the stated envelope is required"},
 		QuickSecs: 150, ThorSecs: 1500, Graph: true,
 		Run: c03Run, Replay: c03Replay,
